@@ -81,14 +81,23 @@ void harness (void)
 
     pixman_image_set_alpha_map (img, arg, in_x, in_y);
 
+    refuse = arg != 0 && (arg->type != BITS || a.acount > 0 || arg == img
+                          || (arg == nw && in_n_has_map));
+#ifndef VI_SELF
+    /* free accounting first: the only thing that may die here is the old map, when it is really
+     * replaced and img held its last reference; anything else and nothing can be read safely */
+    old_dies = !refuse && old && arg != old && o.ref == 1;
+    VH_CHECK ("set_alpha_map.frees_exactly_what_must_die", vh_free_calls - frees0 == (old_dies ? 1 + oo.n_blocks : 0));
+    if (vh_free_calls - frees0 != (old_dies ? 1 + oo.n_blocks : 0))
+        { IH_STOP (); return; }
+#endif
+
     /* C14: a changed property leaves the image dirty; derived state is not written by a setter */
     ih_props_get (&p1, img, IH_MAXFP, IH_MAXBOX);
     VH_CHECK ("c14.changed_property_leaves_image_dirty", ih_props_equal (&p0, &p1) || img->common.dirty);
     VH_CHECK ("c14.setter_does_not_write_derived_state",
               img->common.flags == a.flags && img->common.extended_format_code == (pixman_format_code_t) a.efc);
 
-    refuse = arg != 0 && (arg->type != BITS || a.acount > 0 || arg == img
-                          || (arg == nw && in_n_has_map));
 #ifdef VI_SELF
     /* img -> img is a chain (a cycle): the property says chains are refused */
     VH_CHECK ("set_alpha_map.self.refused_nothing_changed",
@@ -131,7 +140,6 @@ void harness (void)
         }
         else
         {
-            old_dies = old && o.ref == 1;
             if (old && !old_dies)
             {
                 image_common_t wo = so.copy.common;
